@@ -26,7 +26,7 @@ type c16Params struct {
 }
 
 var c16Repo = c16Params{rel: "memory", structName: "TableData", partField: "partitions", idxField: "secondaryIndexStorage", defField: "indexes",
-	copyMethod: "copy", rowRel: "sql", rowType: "Row", floors: map[string]int{"C16-U": 14, "C16-M": 2, "C16-A": 2, "C16-L": 4}}
+	copyMethod: "copy", rowRel: "sql", rowType: "Row", floors: map[string]int{"C16-U": 14, "C16-M": 2, "C16-A": 2, "C16-L": 4, "C16-V1": 12}}
 
 var c16UExceptions = map[string]string{
 	"NewDualTable/replace-all": "the dual table: one constant row assigned to a table fresh from NewTable; no index can be declared on it, its index storage is the constructor's empty map",
@@ -39,9 +39,10 @@ func init() {
 		Explanation: "Coupling of row positions and secondary index storage in the in-memory backend (index rows end in the (partition, position) of the table row they describe). Decided: (U) every write to a value of the type of TableData.partitions in package memory is classified — a *position change* (an element store whose value is an append / re-slice, a nested element store, a swap through an alias field) must be followed on every CFG path to a successful exit by an index-maintenance action (a call to a function that stores into secondaryIndexStorage, or an inline loop over the index storage); a *same-length rebuild* (for k, p := range partitions { new := make(len(p)) … partitions[k] = new }) keeps positions; a *replace-all* (whole field or composite literal) must replace the index storage in the same function; " +
 			"(M) every maintenance function ranges over all index definitions (TableData.indexes) and stores into the storage of each one, with no continue/break in the loop; " +
 			"(L) per-index independence: in every `range` over the index definitions (TableData.indexes) or over a value of the index-storage type held in a struct field (secondaryIndexStorage, partitionssort.indexes) whose body writes index storage, every controlling expression (if/for condition, switch tag and cases, operand of an inner range) that encloses an index write or an exit statement (break, continue, goto, return) may read a local variable that is declared outside that loop and assigned inside its body only if every control-flow path from the start of an iteration to the read passes an assignment of the variable that does not read it (per-index re-initialisation), or the variable provably enters every iteration with the same constant (declared with K, every re-initialisation assigns K, every other write is followed by a re-initialisation before the next index); otherwise what is done for one index depends on the indexes visited before it and later indexes are maintained partially; " +
-			"(A) the rows of secondaryIndexStorage (and of partitions) are either never modified in place or are deep-copied by TableData.copy: copy() takes the statement snapshot that DiscardChanges restores, and shares every row it does not copy.",
-		NotCovered: "that the maintenance functions compute the right index entries (expression evaluation, prefix lengths), index definitions changed by DDL, the sort order of the index storage, lookups (IndexedTable) themselves; L: state carried across indexes through struct fields, package variables, pointers (&v) or closures, and data dependences that do not go through a controlling expression (a carried value stored into an index row)",
-		Technique:  "who-may-write over go/types (all stores to values of the partitions / index-storage types) + CFG must-pass-through to successful exits + shallow/deep copy shape of the snapshot function + loop-carried def-use (kill-dominance from the loop body entry over go/cfg) of the variables read by controlling expressions",
+			"(A) the rows of secondaryIndexStorage (and of partitions) are either never modified in place or are deep-copied by TableData.copy: copy() takes the statement snapshot that DiscardChanges restores, and shares every row it does not copy; " +
+			"(V1) row form: the backend keeps the schema-shaped row (what GetField ordinals of index expressions address) and the storage row (TableData.toStorageRow: VIRTUAL generated columns dropped, later ordinals shifted). Every row argument of sql.Expression.Eval in package memory and of every function that forwards a Row parameter there over static calls (rowToIndexStorage <- addRowToIndexes <- insertHelper …: the index-key builders) has no SSA reaching definition that is the result of the storage projection (any (Row) Row function reading sql.Column.Virtual, or returning such a result), and no Row stored into a value of the partitions type shares a non-projection reaching definition with such an argument in the same function (the stored row and the key row are different forms).",
+		NotCovered: "that the maintenance functions compute the right index entries (expression evaluation, prefix lengths; V1 decides only that they are computed from the schema-shaped row), rows that reach Expression.Eval through interface calls, struct fields or collections (V1 follows parameters over static calls only), storage rows read back from partitions (normalizeRowForRead side), index definitions changed by DDL, the sort order of the index storage, lookups (IndexedTable) themselves; L: state carried across indexes through struct fields, package variables, pointers (&v) or closures, and data dependences that do not go through a controlling expression (a carried value stored into an index row)",
+		Technique:  "who-may-write over go/types (all stores to values of the partitions / index-storage types) + CFG must-pass-through to successful exits + shallow/deep copy shape of the snapshot function + loop-carried def-use (kill-dominance from the loop body entry over go/cfg) of the variables read by controlling expressions + SSA reaching definitions (phi/re-slice/local stores) with an interprocedural parameter-sink closure for the row form",
 		Run:        func(c *Ctx) { runC16(c, c16Repo) },
 		Fixture: func(c *Ctx, fx *Prog) {
 			p := c16Params{rel: "testdata/c16/mem", structName: "TableData", partField: "partitions", idxField: "secondaryIndexStorage", defField: "indexes",
@@ -209,6 +210,11 @@ func runC16(c *Ctx, p c16Params) {
 
 	// ---- L (c16_loop.go) ---------------------------------------------------------------
 	c16LoopCarried(&c16LoopEnv{c: c, p: p, info: info, idxF: idxF, defF: defF, idxT: idxT, rowT: rowT, isT: isT, isFieldSel: isFieldSel, fromField: fromFieldOfType, maint: maint}, pk)
+
+	// ---- V1 (c16_rowform.go) ---------------------------------------------------------------
+	if !c.fixtureMode {
+		c16RowFormRule(c, p, pk, rowT, partT, p.floors["C16-V1"])
+	}
 
 	// ---- U ------------------------------------------------------------------------------
 	usedMaint := map[*types.Func]bool{}
